@@ -10,6 +10,8 @@ use glass_easel_template_compiler::TmplGroup;
 const MAPPABLE: &[&str] = &[
     "<view data-i=\"{{F}}\">x</view>", "<view>{{F}}</view>", "<view class=\"{{F}}\">{{F ? 3 : G}}</view>", "<view a=\"{{ [ , F] }}\"/>",
     "<view a=\"{{ x[F] }}\"/>", "<view a=\"{{ f(F, 1) }}\"/>", "<view a=\"{{ {k: F} }}\"/>", "<view>{{F}}-{{G}}</view>",
+    // one expression that reads the field more than once: every occurrence gets its own slot, and every slot its updater
+    "<view data-a=\"{{F+F}}\">{{F}}</view>", "<view>{{F ? F : G}}</view>", "<view id=\"{{F.x}}-{{F.y}}\" a=\"{{ F[0] + F[1] }}\"/>",
 ];
 /// fragments that use {F} where the map cannot reach
 const UNREACHABLE: &[&str] = &[
@@ -19,7 +21,7 @@ const UNREACHABLE: &[&str] = &[
     "<template is=\"t\" data=\"{{ {a: F} }}\"/>", "<include src=\"q\"/><block wx:if=\"{{ a ? F : 1 }}\">x</block>", "<slot name=\"{{F}}\"/>",
     "<block wx:for=\"{{z}}\" wx:key=\"k\"><view>{{ o[F] }}</view></block>",
 ];
-const BOUND: &str = "8 mappable fragments x 12 unreachable-position fragments x {same field, different fields} x both orders; 8 mappable fragments x 6 placements of an <include> (no field may be advertised)";
+const BOUND: &str = "11 mappable fragments x 12 unreachable-position fragments x {same field, different fields} x both orders; 11 mappable fragments x 6 placements of an <include> (no field may be advertised)";
 
 static MAPS_SEEN: std::sync::atomic::AtomicU64 = std::sync::atomic::AtomicU64::new(0);
 fn advertised(js: &str) -> Vec<(String, usize)> {
